@@ -146,10 +146,15 @@ package wtxmgr
 // write (applied to all such functions of the package, including closures) ----
 //@ auto C10 modifies wfault
 //@   ensures fault_reported: wfault && !old(wfault) ==> err != nil
+//@   guarantees fault_reported: wfault && !old(wfault) ==> err != nil
 //@   ensures fault_not_masked_as_duplicate: wfault && !old(wfault) ==> err != ErrDuplicateTx
+//@   guarantees fault_not_masked_as_duplicate: wfault && !old(wfault) ==> err != ErrDuplicateTx
 //@   ensures ns_frame: forall id Int :: {select(DBhas, id)} {select(DBval, id)} {select(DBlive, id)} id != bid(ns) && !under(id, bid(ns)) ==>
 //@       select(DBhas, id) == select(old(DBhas), id) && select(DBval, id) == select(old(DBval), id) && select(DBlive, id) == select(old(DBlive), id)
+//@   guarantees ns_frame: forall id Int :: {select(DBhas, id)} {select(DBval, id)} {select(DBlive, id)} id != bid(ns) && !under(id, bid(ns)) ==>
+//@       select(DBhas, id) == select(old(DBhas), id) && select(DBval, id) == select(old(DBval), id) && select(DBlive, id) == select(old(DBlive), id)
 //@   ensures bytes_frame: forall o Int :: {select(@M(uint8), o)} oldalloc(o) ==> select(@M(uint8), o) == select(old(@M(uint8)), o)
+//@   guarantees bytes_frame: forall o Int :: {select(@M(uint8), o)} oldalloc(o) ==> select(@M(uint8), o) == select(old(@M(uint8)), o)
 // environment of every store operation: the namespace was created by
 // createStore (all standard buckets exist), a record's output count fits the
 // index type (the operations that walk unmined-input lists additionally
@@ -161,8 +166,12 @@ package wtxmgr
 //@   loopinv store_wf_inv: NS_ALL(ns)
 //@   requires rec_fits: rec != nil && len(rec.MsgTx.TxOut) <= 4294967295
 //@   loopinv no_new_fault: wfault ==> old(wfault)
+//@   gloopinv no_new_fault: wfault ==> old(wfault)
 //@   loopinv bytes_frame_inv: forall o Int :: {select(@M(uint8), o)} oldalloc(o) ==> select(@M(uint8), o) == select(old(@M(uint8)), o)
+//@   gloopinv bytes_frame_inv: forall o Int :: {select(@M(uint8), o)} oldalloc(o) ==> select(@M(uint8), o) == select(old(@M(uint8)), o)
 //@   loopinv ns_frame_inv: forall id Int :: {select(DBhas, id)} {select(DBval, id)} {select(DBlive, id)} id != bid(ns) && !under(id, bid(ns)) ==>
+//@       select(DBhas, id) == select(old(DBhas), id) && select(DBval, id) == select(old(DBval), id) && select(DBlive, id) == select(old(DBlive), id)
+//@   gloopinv ns_frame_inv: forall id Int :: {select(DBhas, id)} {select(DBval, id)} {select(DBlive, id)} id != bid(ns) && !under(id, bid(ns)) ==>
 //@       select(DBhas, id) == select(old(DBhas), id) && select(DBval, id) == select(old(DBval), id) && select(DBlive, id) == select(old(DBlive), id)
 
 // functions that run before / outside a fully created store opt out of the
